@@ -866,6 +866,25 @@ class NPProxy:
                                     _np.asarray(values, dtype=object), axis=axis))
         return _np.insert(arr, obj, values, axis=axis)
 
+    def linspace(self, start, stop, num=50, endpoint=True, **k):
+        if Session.active and (is_sym(start) or is_sym(stop)):
+            num = int(num)
+            div = (num - 1) if endpoint else num
+            out = _np.empty(num, dtype=object)
+            for i in range(num):
+                out[i] = start + (stop - start) * i / div if div else start
+            if endpoint and num > 1:
+                out[-1] = stop
+            return out.view(SymArr)
+        return _np.linspace(start, stop, num, endpoint=endpoint, **k)
+
+    def meshgrid(self, *xi, **k):
+        r = _np.meshgrid(*[_objify(x) if is_sym(x) else x for x in xi], **k)
+        return [_wrap(x) for x in r]
+
+    def prod(self, a, *r, **k):
+        return _wrap(_np.prod(a, *r, **k))
+
     def tile(self, a, reps):
         return _wrap(_np.tile(a, reps))
 
